@@ -146,6 +146,7 @@ def project(cs, evs):
     hintkey = False
     same = False      # the next wait belongs to the same edit as the previous one and nothing moved the frame on purpose
     sticky = False
+    curw, curh = cs["w"], cs["h"]
     for e in evs:
         ev = e["ev"]
         if ev == "session":
@@ -157,12 +158,16 @@ def project(cs, evs):
             same = False      # clear-screen
         if ev == "read":
             hintkey = bytes(e.get("bytes", [])) in HINTKEYS
+        if ev == "resized":
+            out.append(({"ev": "reset", "w": e["w"], "h": e["h"]}, {"ev": "reset"}))
+            curw, curh = e["w"], e["h"]
+            same = False
         if ev == "out":
             out.append(({"ev": "out", "tok": e["tok"], "cells": e.get("cells") or [], "n": e.get("n", 0), "a": e.get("a", 0), "b": e.get("b", 0)}, e))
         elif ev == "wait":
             g = e["glyphs"]
             pw = sum(x[1] for x in e["pglyphs"])
-            if frame_rows(pw, g, cs["w"]) + 1 > cs["h"]:
+            if frame_rows(pw, g, curw) + 1 > curh:
                 # the frame and the row below it (hints) do not fit the screen: nothing can show it; the rest of this terminal's
                 # life is not examined (relative cursor movements are clamped from here on)
                 cs["_overflow"] = True
@@ -200,8 +205,15 @@ def make_cases(rng, n, tier):
             # the application also shows a right-side prompt (narrow characters): it may appear flush right on the last row of
             # the input, never anywhere else, and never instead of the text
             cs["rprompt"] = rng.choice(["R", "[12:00]", "<< right", "12:34:56 main"])
+        W0 = W
+        if ci % 5 == 4 and not cs.get("rprompt"):
+            # the window is resized BETWEEN two calls (while the application runs a command): the next call finds another width
+            cs["preacts"] = [[]]
         for si in range(3):
             sess = []
+            if "preacts" in cs and si > 0:
+                W = rng.choice([w for w in (12, 20, 40, 80) if w != W and w > pw + 2] or [W])
+                cs["preacts"].append([{"k": "resize", "w": W, "n": cs["h"]}])
             for xi in range(rng.randint(2, 5)):
                 buf = gen_buffer(rng, W, pw)
                 while (dwidth(buf.replace("\n", "")) + (buf.count("\n") + 1) * (pw + W)) // W + 3 > cs["h"]:
